@@ -4,6 +4,8 @@ package impl
 import (
 	"context"
 	"fmt"
+	"io"
+	"log"
 	"net"
 	"os"
 	"runtime/debug"
@@ -32,6 +34,7 @@ func Init(shards int) {
 			panic(err)
 		}
 		logger.Disable()
+		log.SetOutput(io.Discard)
 		os.RemoveAll(dir)
 		memdb.RegisterKeyCommands()
 		memdb.RegisterStringCommands()
@@ -65,12 +68,12 @@ func NewSrv(ndb int) *Srv {
 type Reply struct {
 	K string  `json:"k"`
 	V []int   `json:"v"`
-	E string  `json:"e,omitempty"`
+	E string  `json:"e"`
 	A []Reply `json:"a"`
-	W string  `json:"w,omitempty"`
+	W string  `json:"-"`
 	// Raw wire bytes (not serialised to traces)
 	Raw []byte `json:"-"`
-	Msg string `json:"msg,omitempty"`
+	Msg string `json:"-"`
 }
 
 func B2I(b []byte) []int {
